@@ -174,3 +174,7 @@ impl fmt::Display for Error {
 }
 
 impl std::error::Error for Error {}
+
+#[cfg(kani)]
+#[path = "/verif/kani/incrate/h_site_builder.rs"]
+pub(crate) mod verif_kani;
